@@ -10,6 +10,9 @@ lean/PyYetiVerif/Generated/ParFootprint.lean:
   * whether the worker's body is, statement for statement, the serial loop body of the calling
     routine after renaming the shared arrays to their serial counterparts.
 
+The renaming and the serial loop each worker is compared with come from c09_parent (the parent side:
+which array is copied into / viewed from which shared array, at which pool site the worker is used).
+
 Grammar accepted (anything else raises TieBroken — the tie is then broken and the runner searches
 for a failing input): workers start with `(j, (names…)) = args`; shared arrays are touched only
 through `X_[…]` subscripts, bare `X_` loads inside expressions/call arguments, or `X_.shape[…]`;
@@ -197,58 +200,57 @@ def _task_var(fn, fname):
 
 
 class _Rename(ast.NodeTransformer):
-    """Rewrite the worker's shared-array accesses into the serial routine's spelling."""
+    """Rewrite the worker's shared-array accesses into the serial routine's spelling.  The renaming is
+    DERIVED by c09_parent from the parent's code (what is copied into / viewed from which shared array),
+    not written down here: `rename[glob]` is
+      ("name", expr)  : `X_` is the shared copy / view of the parent's `expr`        X_[i] -> expr[i]
+      ("elem", v)     : the serial loop is `for j, v in enumerate(src)`, X_ copies src   X_[j] -> v
+      ("rows", {k:n}) : after the pool `n = X[k]`                                      X_[k, j] -> n[j]
+    `shapes[glob]` are the symbolic dimensions of a shared output: X_.shape[i] -> that expression."""
 
-    def __init__(self, kind, task):
-        self.kind = kind
+    def __init__(self, rename, shapes, task):
+        self.rename = rename
+        self.shapes = shapes
         self.task = task
 
+    @staticmethod
+    def _expr(text):
+        return ast.parse(text, mode="eval").body
+
     def visit_Subscript(self, node):
-        node = self.generic_visit(node)
         v = node.value
-        if isinstance(v, ast.Name):
-            if self.kind == "srs":
-                if v.id == "WN_":
-                    return ast.Subscript(ast.Name("wn", ast.Load()), node.slice, node.ctx)
-                if v.id == "SRSmax_":
-                    return ast.Subscript(ast.Name("SRSmax", ast.Load()), node.slice, node.ctx)
-                if v.id == "HIST_":
-                    return ast.Subscript(
-                        ast.Subscript(ast.Name("resp", ast.Load()), ast.Constant("hist"), ast.Load()),
-                        node.slice,
-                        node.ctx,
-                    )
-            else:
-                if v.id == "WN_":  # WN_[j]  ->  wn   (loop variable of `enumerate(Wn)`)
-                    return ast.Name("wn", ast.Load())
-                if v.id == "ASV_" and isinstance(node.slice, ast.Tuple) and len(node.slice.elts) == 2:
-                    k, j = node.slice.elts
-                    if isinstance(k, ast.Constant) and k.value in (0, 1, 2):
-                        nm = {0: "Amax", 1: "SRSmax", 2: "Var"}[k.value]
-                        return ast.Subscript(ast.Name(nm, ast.Load()), j, node.ctx)
-                if v.id in ("BinAmps_", "Count_"):
-                    return ast.Subscript(ast.Name(v.id[:-1], ast.Load()), node.slice, node.ctx)
+        # X_.shape[i]
         if (
-            self.kind == "fde"
-            and isinstance(v, ast.Attribute)
+            isinstance(v, ast.Attribute)
             and isinstance(v.value, ast.Name)
-            and v.value.id == "BinAmps_"
+            and v.value.id in self.shapes
             and v.attr == "shape"
             and isinstance(node.slice, ast.Constant)
-            and node.slice.value == 1
+            and isinstance(node.slice.value, int)
+            and node.slice.value < len(self.shapes[v.value.id])
         ):
-            return ast.Name("nbins", ast.Load())
-        return node
+            return self._expr(self.shapes[v.value.id][node.slice.value])
+        if isinstance(v, ast.Name) and v.id in self.rename:
+            kind, tgt = self.rename[v.id]
+            sl = self.visit(node.slice)
+            if kind == "elem":
+                if isinstance(sl, ast.Name) and sl.id == self.task:
+                    return ast.Name(tgt, ast.Load())
+                return ast.Subscript(v, sl, node.ctx)  # not the task's own element: left alone (comparison fails)
+            if kind == "rows":
+                if isinstance(sl, ast.Tuple) and len(sl.elts) == 2 and isinstance(sl.elts[0], ast.Constant) and sl.elts[0].value in tgt:
+                    return ast.Subscript(ast.Name(tgt[sl.elts[0].value], ast.Load()), sl.elts[1], node.ctx)
+                return ast.Subscript(v, sl, node.ctx)
+            e = self._expr(tgt)
+            return ast.Subscript(e, sl, node.ctx)
+        return self.generic_visit(node)
 
     def visit_Name(self, node):
-        if self.kind == "srs":
-            if node.id == "SIG_":
-                return ast.Name("sig", node.ctx)
-            if node.id == "ICVALS_":
-                return ast.Name("icvals", node.ctx)
-        else:
-            if node.id == "SIG_":
-                return ast.Name("sig", node.ctx)
+        if node.id in self.rename and self.rename[node.id][0] == "name":
+            e = self._expr(self.rename[node.id][1])
+            if isinstance(e, ast.Name):
+                e.ctx = node.ctx
+            return e
         return node
 
 
@@ -269,49 +271,6 @@ def _strip_getresp(stmts):
     return with_h, without_h
 
 
-def _serial_loops_srs(tree):
-    """The two `for j in range(LF):` loops of srs.srs (with and without initial conditions)."""
-    fn = [n for n in tree.body if isinstance(n, ast.FunctionDef) and n.name == "srs"]
-    if not fn:
-        raise TieBroken("srs.srs not found")
-    loops = []
-    for node in ast.walk(fn[0]):
-        if (
-            isinstance(node, ast.For)
-            and isinstance(node.target, ast.Name)
-            and node.target.id == "j"
-            and isinstance(node.iter, ast.Call)
-            and getattr(node.iter.func, "id", None) == "range"
-            and len(node.iter.args) == 1
-            and getattr(node.iter.args[0], "id", None) == "LF"
-        ):
-            src = ast.dump(node)
-            if "lfilter" in src:
-                loops.append(node)
-    if len(loops) != 2:
-        raise TieBroken("expected two serial per-frequency loops in srs.srs, found %d" % len(loops))
-    ic = [l for l in loops if "icvals" in ast.dump(l)]
-    no = [l for l in loops if "icvals" not in ast.dump(l)]
-    if len(ic) != 1 or len(no) != 1:
-        raise TieBroken("cannot tell the ic / no-ic serial loops of srs.srs apart")
-    return ic[0].body, no[0].body
-
-
-def _serial_loop_fde(tree):
-    fn = [n for n in tree.body if isinstance(n, ast.FunctionDef) and n.name == "fdepsd"]
-    if not fn:
-        raise TieBroken("fdepsd.fdepsd not found")
-    for node in ast.walk(fn[0]):
-        if (
-            isinstance(node, ast.For)
-            and isinstance(node.iter, ast.Call)
-            and getattr(node.iter.func, "id", None) == "enumerate"
-            and "lfilter" in ast.dump(node)
-        ):
-            return node.body
-    raise TieBroken("serial per-frequency loop of fdepsd.fdepsd not found")
-
-
 def _norm_verbose(stmts):
     """The progress print differs only in how the frequency is spelled; compare the rest."""
     out = []
@@ -322,42 +281,72 @@ def _norm_verbose(stmts):
     return out
 
 
-def _worker_eq_serial(kind, fname, fn, task, rest, tree):
-    body = [_Rename(kind, task).visit(copy.deepcopy(s)) for s in rest]
+def _worker_eq_serial(site, fn, task, rest):
+    """worker body == body of the serial loop of ITS pool site, after the derived renaming; the serial
+    loop's task variable must be spelled like the worker's"""
+    shapes = {d["glob"]: d["dims"][0] for d in site["shared"] if d["kind"] != "copy" and d["dims"]}
+    body = [_Rename(site["rename"], shapes, task).visit(copy.deepcopy(s)) for s in rest]
     for s in body:
         ast.fix_missing_locations(s)
-    if kind == "srs":
-        ic_body, no_body = _serial_loops_srs(tree)
-        serial = ic_body if fn.name.endswith("_ic") else no_body
+    if site["serial_task_var"] != task:
+        return False
+    serial = site["_serial_loop"].body
+    if site["select"]:
+        # `func = A if getresp else B`: A is the body with, B the body without the `if getresp:` statements
+        if site["select"] != "getresp":
+            raise TieBroken("%s: workers selected by `%s`" % (site["routine"], site["select"]))
         with_h, without_h = _strip_getresp(serial)
-        serial = without_h if "nohist" in fn.name else with_h
-        # the serial loop uses the precomputed `dT`; the worker receives it as an argument: same name
-        return _dump(body) == _dump(serial)
-    serial = _norm_verbose(_serial_loop_fde(tree))
-    return _dump(_norm_verbose(body)) == _dump(serial)
+        if site["worker_hist"] == site["worker_nohist"]:
+            raise TieBroken("%s: one worker selected twice" % site["routine"])
+        serial = with_h if fn.name == site["worker_hist"] else without_h
+    return _dump(_norm_verbose(body)) == _dump(_norm_verbose(serial))
 
 
 # ---------------------------------------------------------------------------------------
 
 
-def extract(repo):
-    """-> list of dicts (one per worker); raises TieBroken on anything outside the grammar."""
-    out = []
+def worker_signatures(repo):
+    """pass 1: per file, per worker: the task variable, the parameter list, the body, the number of peak calls"""
+    out = {}
     for fname, workers in WORKERS.items():
         path = os.path.join(repo, "pyyeti", fname)
         tree = ast.parse(open(path).read())
-        shared = _shared_names(tree, INITS[fname])
         fns = {n.name: n for n in tree.body if isinstance(n, ast.FunctionDef)}
+        out[fname] = {}
         for w in workers:
             if w not in fns:
                 raise TieBroken("%s: worker %s not found" % (fname, w))
-            fn = fns[w]
-            task, argnames, rest = _task_var(fn, fname)
+            task, argnames, rest = _task_var(fns[w], fname)
+            calls = sum(1 for st in rest for n in ast.walk(st)
+                        if isinstance(n, ast.Call) and isinstance(n.func, ast.Name) and n.func.id == "methfunc")
+            out[fname][w] = {"params": argnames, "task": task, "rest": rest, "fn": fns[w], "meth_calls": calls,
+                             "tree": tree}
+    return out
+
+
+def extract(repo):
+    """-> (list of dicts, one per worker; the parent-side facts); raises TieBroken on anything outside the grammar."""
+    from translate import c09_parent
+
+    sigs = worker_signatures(repo)
+    parent = c09_parent.extract(repo, sigs)
+    out = []
+    for fname, workers in WORKERS.items():
+        tree = next(iter(sigs[fname].values()))["tree"]
+        shared = _shared_names(tree, INITS[fname])
+        routine = [r for r in parent["routines"] if r["routine"].startswith(fname[:-3] + ".")][0]
+        handed = set()
+        for w in workers:
+            sg = sigs[fname][w]
+            task, rest, fn = sg["task"], sg["rest"], sg["fn"]
             sc = _Scan(shared, task, "%s.%s" % (fname, w))
             for st in rest:
                 sc.visit(st)
-            kind = "srs" if fname == "srs.py" else "fde"
-            same = _worker_eq_serial(kind, fname, fn, task, rest, tree)
+            mine = [s for s in routine["sites"] if w in (s["worker_hist"], s["worker_nohist"])]
+            if len(mine) != 1:
+                raise TieBroken("%s: worker %s is handed to the pool at %d sites" % (fname, w, len(mine)))
+            handed.add(w)
+            same = _worker_eq_serial(mine[0], fn, task, rest)
             out.append(
                 {
                     "name": w,
@@ -368,25 +357,12 @@ def extract(repo):
                     "serial_same": same,
                 }
             )
-        # the function handed to the pool must be one of the analysed workers
-        main = fns["srs" if fname == "srs.py" else "fdepsd"]
-        for node in ast.walk(main):
-            if isinstance(node, ast.Call) and getattr(node.func, "attr", None) in (
-                "imap_unordered", "imap", "map", "apply_async", "map_async", "starmap"):
-                if node.func.attr != "imap_unordered":
-                    raise TieBroken("%s: pool call %s is not imap_unordered" % (fname, node.func.attr))
-                f0 = node.args[0]
-                if not (isinstance(f0, ast.Name) and f0.id == "func"):
-                    raise TieBroken("%s: unexpected callable handed to the pool" % fname)
-        handed = set()
-        for node in ast.walk(main):
-            if isinstance(node, ast.Assign) and any(getattr(t, "id", None) == "func" for t in node.targets):
-                for e in ast.walk(node.value):
-                    if isinstance(e, ast.Name) and e.id.startswith("_do"):
-                        handed.add(e.id)
+        # the functions handed to the pool must be exactly the analysed workers
+        for s in routine["sites"]:
+            handed |= {s["worker_hist"], s["worker_nohist"]}
         if handed != set(workers):
             raise TieBroken("%s: functions handed to the pool %s != analysed workers %s" % (fname, sorted(handed), workers))
-    return out
+    return out, parent, sigs
 
 
 def _lean_ix(i):
@@ -436,11 +412,17 @@ def render(ws):
     return "\n".join(L) + "\n"
 
 
-def generate(repo, lean_dir):
-    ws = extract(repo)
-    txt = render(ws)
-    path = os.path.join(lean_dir, "PyYetiVerif", "Generated", "ParFootprint.lean")
+def _write(path, txt):
     old = open(path).read() if os.path.exists(path) else None
     if old != txt:
         open(path, "w").write(txt)
-    return ws
+
+
+def generate(repo, lean_dir):
+    from translate import c09_parent
+
+    ws, parent, sigs = extract(repo)
+    ptxt = c09_parent.render(parent, sigs)
+    _write(os.path.join(lean_dir, "PyYetiVerif", "Generated", "ParFootprint.lean"), render(ws))
+    _write(os.path.join(lean_dir, "PyYetiVerif", "Generated", "ParFootprintParent.lean"), ptxt)
+    return ws, parent
